@@ -21,6 +21,7 @@ import (
 	"github.com/markusressel/fan2go/internal/controller"
 	"github.com/markusressel/fan2go/internal/fans"
 	"github.com/markusressel/fan2go/internal/persistence"
+	"github.com/markusressel/fan2go/internal/sensors"
 	"github.com/markusressel/fan2go/internal/util"
 )
 
@@ -75,7 +76,25 @@ const (
 	ctlrunCancelPending   = 12 // a control cycle blocks for several tick periods (a tick is pending), then cancel and release at once
 	ctlrunErrLinger       = 13 // control error (as 5), then the controller stays alive for LingerMs: the hand-back must persist
 	ctlrunStallLinger     = 14 // stalled at max (as 9), then the controller stays alive for LingerMs
+	ctlrunCmdLingerChild  = 15 // the curve reads a real cmd sensor whose command leaves an orphaned child holding its stdout: control error, hand-back
 )
+
+const ctlrunLingerScript = `#!/bin/sh
+# prints a value and exits, but an orphaned child keeps the output pipe open
+sleep 8 & echo $! >> "$1/bgpids"
+echo 42
+`
+
+func ctlrunKillChildren(dir string) {
+	if b, err := os.ReadFile(filepath.Join(dir, "bgpids")); err == nil {
+		for _, f := range strings.Fields(string(b)) {
+			if pid, err := strconv.Atoi(f); err == nil && pid > 1 {
+				_ = syscall.Kill(pid, syscall.SIGKILL)
+			}
+		}
+	}
+}
+
 
 type ctlrunPers struct {
 	persistence.Persistence
@@ -113,6 +132,8 @@ type ctlrunCurve struct {
 	blockAt int
 	blocked chan struct{}
 	release chan struct{}
+	// from evaluation `at` on the curve reads this (real) sensor, as a PID curve does
+	sensor sensors.Sensor
 }
 
 func (c *ctlrunCurve) GetId() string { return "ctlrun_curve" }
@@ -124,6 +145,12 @@ func (c *ctlrunCurve) Evaluate() (int, error) {
 	if c.blockAt > 0 && c.n == c.blockAt {
 		close(c.blocked)
 		<-c.release
+	}
+	if c.sensor != nil && c.n >= c.at {
+		if _, err := c.sensor.GetValue(); err != nil {
+			return 0, err
+		}
+		return 100, nil
 	}
 	if c.fail && c.n >= c.at {
 		return 0, errors.New("injected: sensor read failed")
@@ -197,7 +224,7 @@ func ctlrunRun(ctx *Ctx, seq int, in ctlrunIn) (ctlrunObs, string, []string) {
 	}
 	pers := &ctlrunPers{Persistence: persistence.NewPersistence(filepath.Join(dir, "fan2go.db")), scn: in.Scn}
 	inTick := in.Scn == ctlrunCancelInTick || in.Scn == ctlrunCancelPending
-	if (in.Scn >= ctlrunErrDeviceGone && in.Scn <= ctlrunCancel) || stall || inTick || in.Scn == ctlrunErrLinger {
+	if (in.Scn >= ctlrunErrDeviceGone && in.Scn <= ctlrunCancel) || stall || inTick || in.Scn == ctlrunErrLinger || in.Scn == ctlrunCmdLingerChild {
 		// characterised earlier: stored data exists
 		data := map[int]float64{0: 0, in.Top: 1200}
 		if stall {
@@ -285,6 +312,18 @@ func ctlrunRun(ctx *Ctx, seq int, in ctlrunIn) (ctlrunObs, string, []string) {
 	case ctlrunErrDeviceGone:
 		curve.fail = true
 		curve.fire = func() { mu.Lock(); gone, armed = true, true; mu.Unlock() }
+	case ctlrunCmdLingerChild:
+		sc := filepath.Join(dir, "linger.sh")
+		if err := os.WriteFile(sc, []byte(ctlrunLingerScript), 0755); err != nil {
+			panic(err)
+		}
+		sens, err := sensors.NewSensor(configuration.SensorConfig{ID: fmt.Sprintf("ctlrun_s%d", seq),
+			Cmd: &configuration.CmdSensorConfig{Exec: sc, Args: []string{dir}}})
+		if err != nil {
+			panic(err)
+		}
+		curve.sensor = sens
+		curve.fire = func() { mu.Lock(); armed = true; mu.Unlock() }
 	case ctlrunErr, ctlrunErrLinger:
 		curve.fail = true
 		curve.fire = func() { mu.Lock(); armed = true; mu.Unlock() }
@@ -337,12 +376,14 @@ func ctlrunRun(ctx *Ctx, seq int, in ctlrunIn) (ctlrunObs, string, []string) {
 	case <-done:
 	case <-time.After(time.Duration(ctx.Param("giveup_s", 6)) * time.Second):
 		cancel()
+		ctlrunKillChildren(dir) // a call stuck on a pipe held by an orphaned child comes back once the child is gone
 		select {
 		case <-done:
-		case <-time.After(5 * time.Second):
+		case <-time.After(12 * time.Second):
 		}
 		obs.Ret = 3
 	}
+	ctlrunKillChildren(dir)
 	mu.Lock()
 	obs.NWrites = len(ops)
 	obs.Touched = len(ops) > 0
@@ -430,6 +471,10 @@ func init() {
 							Top: 200, NoRpm: v[1] == 1 && scn == ctlrunErrLinger, LingerMs: ctx.Param("linger_ms", 1300)})
 						jt = append(jt, "generated")
 					}
+				}
+				for _, om := range []int{2, 1} {
+					jobs = append(jobs, ctlrunIn{Scn: ctlrunCmdLingerChild, Exists: true, OrigMode: om, OrigPwm: rng.Pick([]int{77, 120}), Top: 200})
+					jt = append(jt, "generated")
 				}
 				for scn := 1; scn <= 10; scn++ {
 					for _, om := range []int{2, 1, 0} {
